@@ -440,6 +440,19 @@ func (w *World) onMutate(m *simkube.Mutation) {
 	}
 }
 
+// slowReply injects sched.stall at an arbitrary call of a galaxy-ipam task: the reply (or the goroutine) is slow, so
+// the task sits between one of its reads and its next action while whole pod lifecycles go by.
+func (w *World) slowReply(t *core.Task) {
+	if !w.prof.Stall || !w.faultsOn || w.phase != 1 || !w.galaxyTask(t) || t.Tag == "init" || t.Tag == "probe" || w.stalled[t] != 0 {
+		return
+	}
+	if w.C.Prob(1, 150) {
+		w.stalled[t] = w.S.Steps + 40 + w.C.Choose(500)
+		w.S.Stat("fault.sched.stall")
+		w.S.Sig("F:slow:" + t.Tag)
+	}
+}
+
 // reloadInFlight: a configuration reload (triggered through the hook, or the periodic one) is running.
 func (w *World) reloadInFlight() bool {
 	for _, t := range w.inflight {
@@ -593,6 +606,7 @@ func (w *World) Handle(t *core.Task, r *core.Req) core.Resp {
 			}
 		}
 		resp := w.K.Handle(t, r)
+		w.slowReply(t)
 		if r.Op == "api.get" && len(r.A) > 0 && r.A[0] == "configmaps" && resp.Code == 0 && t != nil {
 			// remember which configuration version this task read
 			if tm, ok := t.Data.(*taskMeta); ok && tm != nil {
@@ -613,6 +627,7 @@ func (w *World) Handle(t *core.Task, r *core.Req) core.Resp {
 		}
 		return resp
 	case strings.HasPrefix(r.Op, "view."):
+		w.slowReply(t)
 		return w.K.Handle(t, r)
 	case strings.HasPrefix(r.Op, "cloud."):
 		return w.handleCloud(t, r)
